@@ -5,7 +5,7 @@
 // -escape), backtrace.Analyze (baseline, -fs, -ondemand), escape (dataflow state + escape.InitializeEscapeAnalysisState),
 // reachability.FindReachable, defers.AnalyzeProgram, maypanic.MayPanicAnalyzer.
 //
-// Budget of a variant = init + max(factor x (baseline - init), floor) where init is the measured time of the part every
+// Budget of a variant = 1.5 x init + max(factor x (baseline - init), floor, 3 x init) where init is the measured time of the part every
 // configuration shares (dataflow.NewInitializedAnalyzerState: SSA facts + pointer analysis) and baseline the time of the
 // same entry point on the same program under the baseline configuration, in the same process (taint-escape: taint + the
 // stand-alone escape analysis).  Analyses without a
@@ -300,7 +300,8 @@ func main() {
 						extra += b - initT
 					}
 				}
-				budget = initT*1.5 + maxf(*factor*extra, *floor)
+				// floor in units of the machine's speed: init (SSA facts + pointer analysis of the std library) is the yardstick
+				budget = initT*1.5 + maxf(*factor*extra, maxf(*floor, 3*initT))
 			}
 			emit("START %s %s\n", dir, j.name)
 			st, secs, det := timed(j.run, budget)
